@@ -334,6 +334,19 @@ def partitions(tier, seed):
                           bound='table keys %r*%d (%d UTF-8 bytes) and a sibling sharing all but the first '
                                 'character; value any 64-bit integer' % (c, n, n * len(c.encode('utf-8'))),
                           rep={'v': 5, 't': trep}))
+    parts.append(Part('leaf_str_samples', [('n', 'int')] + T, ['-2**15 <= n < 2**15'] + TP,
+                      'def body(n, t):\n'
+                      '    ok = True\n'
+                      '    for s in ("\\ufeffabc", "\\ufeff", "a\\ufeff", "\\ufffe", "\\x00", "a\\x00b", "\\U0001f600\\U0010ffff",\n'
+                      '              "e\\u0301", "\\u2028", " ", "\\uffff", "\\x7f\\x80", "\\\\", "%%s", "{}"):\n'
+                      '        for v in (s, [s, n], hx.table([(s, s)])):\n'
+                      '            c, got = rt(v, t, %d)\n'
+                      '            ok = ok and c and eqv(got, v)\n'
+                      '    return ok\n' % tl,
+                      PRE, 200, family='leaf',
+                      bound='15 concrete strings (byte-order mark first / alone / last, U+FFFE, NUL, astral pairs, '
+                            'combining marks, line separator, format-looking text) as value, in a list and as key',
+                      rep={'n': 3, 't': trep}))
     parts.append(Part('twin_leaf_int', [('n', 'int')] + T, ['-2**63 <= n < 2**63'] + TP,
                       (LEAF_INT % {'tl': tl}).replace('return ok and', 'return not ok or not'),
                       PRE, 60, expect='refuted', family='leaf', bound='vacuity twin'))
